@@ -67,7 +67,8 @@ impl<T: Read> ReadInputSource<T> {
                 found = true;
             }
         }
-        Ok(String::from_utf8(buf).unwrap())
+        // input is not necessarily UTF-8
+        Ok(String::from_utf8_lossy(&buf).into_owned())
     }
 
     fn read_until<F>(&mut self, predicate: F) -> std::io::Result<String>
@@ -93,7 +94,8 @@ impl<T: Read> ReadInputSource<T> {
                 }
             }
         }
-        Ok(String::from_utf8(buf).unwrap())
+        // input is not necessarily UTF-8
+        Ok(String::from_utf8_lossy(&buf).into_owned())
     }
 }
 
